@@ -185,8 +185,12 @@ impl Resolver {
             self.temp_marks.remove(id);
             self.sorted.push(id.clone());
         } else if let Some(base_unit) = self.long_names.get(id).cloned() {
-            // Referring to a base unit by its long name depends on the base unit.
-            self.visit(&base_unit);
+            // Referring to a base unit by its long name depends on the base
+            // unit. (Two base units may carry each other's names: only one
+            // that is still waiting is followed.)
+            if self.unmarked.get(&base_unit).is_some() {
+                self.visit(&base_unit);
+            }
         }
     }
 }
